@@ -35,34 +35,69 @@ partial def orderSensitive (t : Disambig.Table) (ms : List Nat) (p : Disambig.Pa
     let keys := Disambig.pkeys p
     (pinCands t (Disambig.sortDesc t ms)).any (fun ck => ck.2.any keys.contains && !ck.2.all keys.contains)
 
+/-- `str` / `bytes` payload at an iterating position: does the traversal of `stLF` run out of fuel (a class met again
+with the same 1-character string: the real code recurses until `RecursionError`, which the detailed templates wrap
+hundreds of levels deep)?  Over-approximation; such cases are answered `unmodelled`. -/
+partial def leafOut (w : World) (cfg : Cfg) : Nat → Ty → Obj → Bool
+  | n, .coll _ t, o =>
+      match leafItems o with
+      | Option.none => false
+      | some xs => xs.any (leafOut w cfg n t)
+  | n, .tupleHet ts, o =>
+      match leafItems o with
+      | Option.none => false
+      | some xs => (ts.zip xs).any (fun (t, x) => leafOut w cfg n t x)
+  | n, .opt t, o => leafOut w cfg n t o
+  | n, .wrap _ t, o => leafOut w cfg n t o
+  | n, .cls c, o =>
+      if cfg.tupleStrat then
+        match n, leafItems o with
+        | _, Option.none => false
+        | 0, some _ => true
+        | n' + 1, some xs => ((w.fields c).zip xs).any (fun (f, x) => match f.ty with
+            | some t => leafOut w cfg n' t x
+            | Option.none => false)
+      else false
+  | n, .union cs hn, o =>
+      (match unionPick w cs hn o with
+       | .ok m => leafOut w cfg n (.cls m) o
+       | _ => false)
+  | n, .nt c, o =>
+      match n, leafItems o with
+      | _, Option.none => false
+      | 0, some _ => true
+      | n' + 1, some xs => ((w.ntTys c).zip xs).any (fun (t, x) => leafOut w cfg n' t x)
+  | _, _, _ => false
+
 /-- Is the call outside the modelled fragment? (over-approximation; such cases are answered
 `unmodelled` and excluded from the comparison) -/
 partial def unmodelledSTcore (w : World) (cfg : Cfg) : Ty → Obj → Bool
-  | .coll _ t, o =>
+  | .coll k t, o =>
       match o with
-      | .str _ | .bytes _ => true
+      | .str _ | .bytes _ => leafOut w cfg (leafFuel w) (.coll k t) o
       | .coll _ xs => xs.any (unmodelledSTcore w cfg t)
       | .dict kvs => kvs.any (fun kv => unmodelledSTcore w cfg t kv.1)
       | _ => false
   | .tupleHet ts, o =>
       match o with
-      | .str _ | .bytes _ => true
+      | .str _ | .bytes _ => leafOut w cfg (leafFuel w) (.tupleHet ts) o
       | .coll _ xs => (ts.zip xs).any (fun (t, x) => unmodelledSTcore w cfg t x)
       | .dict kvs => (ts.zip kvs).any (fun (t, kv) => unmodelledSTcore w cfg t kv.1)
       | _ => false
-  | .nt c, o => unmodelledSTcore w cfg (.tupleHet (w.ntTys c)) o
+  | .nt c, o =>
+      match o with
+      | .str _ | .bytes _ => leafOut w cfg (leafFuel w) (.nt c) o
+      | _ => unmodelledSTcore w cfg (.tupleHet (w.ntTys c)) o
   | .map _ kt vt, o =>
       match o with
       | .dict kvs => kvs.any (fun kv => unmodelledSTcore w cfg kt kv.1 || unmodelledSTcore w cfg vt kv.2)
-      | .coll _ _ => true          -- dict(iterable of pairs)
-      | .str _ | .bytes _ => true
       | _ => false
   | .opt t, o => unmodelledSTcore w cfg t o
   | .wrap _ t, o => unmodelledSTcore w cfg t o
   | .cls c, o =>
       if cfg.tupleStrat then
         match o with
-        | .str _ | .bytes _ => true
+        | .str _ | .bytes _ => leafOut w cfg (leafFuel w) (.cls c) o
         | .coll _ xs => ((w.fields c).zip xs).any (fun (f, x) => match f.ty with | some t => unmodelledSTcore w cfg t x | Option.none => false)
         | .dict kvs => ((w.fields c).zip kvs).any (fun (f, kv) => match f.ty with | some t => unmodelledSTcore w cfg t kv.1 | Option.none => false)
         | _ => false
@@ -85,6 +120,58 @@ partial def unmodelledSTcore (w : World) (cfg : Cfg) : Ty → Obj → Bool
       | .ok m => unmodelledSTcore w cfg (.cls m) o
       | _ => false
   | _, _ => false
+
+
+/-- diagnostic (driver only): which clauses of `unmodelledST` fire -/
+partial def whyCore (w : World) (cfg : Cfg) : Ty → Obj → List String
+  | .coll k t, o =>
+      match o with
+      | .str _ | .bytes _ => if leafOut w cfg (leafFuel w) (.coll k t) o then ["leaf-fuel"] else []
+      | .coll _ xs => xs.flatMap (whyCore w cfg t)
+      | .dict kvs => kvs.flatMap (fun kv => whyCore w cfg t kv.1)
+      | _ => []
+  | .tupleHet ts, o =>
+      match o with
+      | .str _ | .bytes _ => if leafOut w cfg (leafFuel w) (.tupleHet ts) o then ["leaf-fuel"] else []
+      | .coll _ xs => (ts.zip xs).flatMap (fun (t, x) => whyCore w cfg t x)
+      | .dict kvs => (ts.zip kvs).flatMap (fun (t, kv) => whyCore w cfg t kv.1)
+      | _ => []
+  | .nt c, o =>
+      match o with
+      | .str _ | .bytes _ => if leafOut w cfg (leafFuel w) (.nt c) o then ["leaf-fuel"] else []
+      | _ => whyCore w cfg (.tupleHet (w.ntTys c)) o
+  | .map _ kt vt, o =>
+      match o with
+      | .dict kvs => kvs.flatMap (fun kv => whyCore w cfg kt kv.1 ++ whyCore w cfg vt kv.2)
+      | _ => []
+  | .opt t, o => whyCore w cfg t o
+  | .wrap _ t, o => whyCore w cfg t o
+  | .cls c, o =>
+      if cfg.tupleStrat then
+        match o with
+        | .str _ | .bytes _ => if leafOut w cfg (leafFuel w) (.cls c) o then ["leaf-fuel"] else []
+        | .coll _ xs => ((w.fields c).zip xs).flatMap (fun (f, x) => match f.ty with | some t => whyCore w cfg t x | Option.none => [])
+        | .dict kvs => ((w.fields c).zip kvs).flatMap (fun (f, kv) => match f.ty with | some t => whyCore w cfg t kv.1 | Option.none => [])
+        | _ => []
+      else match o with
+        | .dict kvs => (w.fields c).flatMap (fun f => match f.ty, dlookup kvs f.key with
+            | some t, some v => whyCore w cfg t v
+            | _, _ => [])
+        | _ => []
+  | .td c, o =>
+      (if !cfg.gen then ["td-nogen"] else []) ++ (match o with
+        | .dict kvs => (w.fields c).flatMap (fun f => match f.ty, dlookup kvs f.key with
+            | some t, some v => whyCore w cfg t v
+            | _, _ => [])
+        | _ => [])
+  | .union cs hn, o =>
+      (match o with
+       | .dict kvs => if orderSensitive w.table cs (disPayload w.litPool kvs) then ["order-sensitive"] else []
+       | _ => []) ++
+      match unionPick w cs hn o with
+      | .ok m => whyCore w cfg (.cls m) o
+      | _ => []
+  | _, _ => []
 
 /-! ### hook creation
 
@@ -183,6 +270,12 @@ def convHandle (w : World) (op : String) (args : List Sexp) : Option Sexp :=
       some (.list [ofBool (ty.ntOK w && w.classes.all clsOK),
                    ofBool (ty.ntOK w && reach.all (fun c => match w.cls? c with | some k => clsOK k | Option.none => true)),
                    ofBool (reach.all (fun c => !w.isNT c))])
+  | "WHY", [cfg, ty, o] => do
+      let cfg ← cfgOfSexp cfg; let ty ← tyOfSexp ty; let o ← objOfSexp o
+      let r := (if topRefused w ty then ["top-refused"] else []) ++ whyCore w cfg ty o
+        ++ (if hasNTInst w o then ["nt-inst"] else [])
+        ++ (if refusedReach w ty then ["refused-reach"] else [])
+      some (.list (r.eraseDups.map Sexp.atom))
   | "CONF", [ty, o] => do
       let ty ← tyOfSexp ty; let o ← objOfSexp o
       some (ofBool (conf w ty o))
